@@ -47,7 +47,7 @@ func verifC04Announcements(n int) []byte {
 }
 
 func verifC04Gen(r *verifC04Rng, thorough bool) (cases []verifC04Case) {
-	nRand := 300
+	nRand := 120
 	if thorough {
 		nRand = 5000
 	}
